@@ -495,6 +495,10 @@ def closure_fn(engine, cl):
         f = engine.ctx.index.get(cl.name)
         if f is not None:
             return f
+    if isinstance(cl, Opaque) and cl.ty == "fnitem":
+        f = engine.find_fn(cl.label)
+        if f is not None:
+            return f
     if isinstance(cl, Opaque) and cl.ty == "const":
         # capture-less closure / fn item constant:  `ZeroSized: {closure@file:l:c: l:c}`  or  `ZeroSized: path::<..>`
         mm = re.search(r"(\{closure@[^}]*\})", cl.label)
@@ -590,6 +594,67 @@ def h_map_drop(engine, st, fr, callee, argv, m):
     r = argv[0]
     return EnumV("Result", r.discr, {0: [UnitV()], 1: list(r.variants.get(1, [UNINIT]))})
 
+
+def fargs(f, cl, payload):
+    """argument list for calling `cl` (closure: environment first; fn item: just the arguments)"""
+    return ([cl] + list(payload)) if "{closure" in f.name else list(payload)
+
+
+def h_opt_map_or(engine, st, fr, callee, argv, m):
+    opt, default, cl = argv
+    f = closure_fn(engine, cl)
+    some = list(opt.variants.get(1, [UNINIT]))
+    return ("fork", [(opt.discr == 1, ("frame", f, fargs(f, cl, some), None), None), (opt.discr != 1, default, None)])
+
+
+def h_opt_map(engine, st, fr, callee, argv, m):
+    opt, cl = argv
+    f = closure_fn(engine, cl)
+    some = list(opt.variants.get(1, [UNINIT]))
+    wrap = (lambda v: v) if m.group(1) == "and_then" else (lambda v: EnumV("Option", 1, {1: [v]}))
+    return ("fork", [(opt.discr == 1, ("frame", f, fargs(f, cl, some), wrap), None), (opt.discr != 1, EnumV("Option", 0, {}), None)])
+
+
+def h_opt_is_some_and(engine, st, fr, callee, argv, m):
+    opt, cl = argv
+    f = closure_fn(engine, cl)
+    some = list(opt.variants.get(1, [UNINIT]))
+    return ("fork", [(opt.discr == 1, ("frame", f, fargs(f, cl, some), None), None), (opt.discr != 1, BoolV(z3.BoolVal(False)), None)])
+
+
+def h_opt_unwrap_or(engine, st, fr, callee, argv, m):
+    opt, default = argv
+    some = list(opt.variants.get(1, [UNINIT]))
+    return ("fork", [(opt.discr == 1, some[0], None), (opt.discr != 1, default, None)])
+
+
+def h_identity(engine, st, fr, callee, argv, m):
+    return argv[0]
+
+
+def h_res_is(engine, st, fr, callee, argv, m):
+    r = argv[0]
+    if isinstance(r, Ref):
+        r = engine.load(st, r.addr)
+    return BoolV((r.discr == 0) if m.group(1) == "is_ok" else (r.discr != 0))
+
+
+def h_res_ok_err(engine, st, fr, callee, argv, m):
+    r = argv[0]
+    which = 0 if m.group(1) == "ok" else 1
+    return EnumV("Option", z3.If(r.discr == which, z3.BitVecVal(1, 64), z3.BitVecVal(0, 64)), {1: list(r.variants.get(which, [UNINIT]))})
+
+
+GENERIC_COMBINATORS = [
+    (rx(r"^(?:std::option::)?Option::<.*>::map_or::<"), h_opt_map_or),
+    (rx(r"^(?:std::option::)?Option::<.*>::(map|and_then)::<"), h_opt_map),
+    (rx(r"^(?:std::option::)?Option::<.*>::is_some_and::<"), h_opt_is_some_and),
+    (rx(r"^(?:std::option::)?Option::<.*>::unwrap_or$"), h_opt_unwrap_or),
+    (rx(r"^(?:std::option::)?Option::<&.*>::(copied|cloned)$"), h_identity),
+    (rx(r"^std::result::Result::<.*>::(is_ok|is_err)$"), h_res_is),
+    (rx(r"^std::result::Result::<.*>::(ok|err)$"), h_res_ok_err),
+]
+CORE_STUBS = CORE_STUBS + GENERIC_COMBINATORS
 
 COMBINATOR_STUBS = [
     (rx(r"^std::result::Result::<.*>::map::<\(\), fn\(\w+\) \{std::mem::drop::<\w+>\}>$"), h_map_drop),
